@@ -1,5 +1,41 @@
 import TinkVerif.Model.MldsaPack
 import TinkVerif.Props.C10
+
+/-!
+# C10 (continued) — laws of the ML-DSA packing codecs (FIPS 204 Algorithms 16–21, 28)
+
+`Model/MldsaPack.lean` is a list-based model of `/repo/internal/signature/mldsa/marshal.go`
+(`simpleBitPack`, `simpleBitUnpackPoly`, `bitPack`, `bitUnpackPoly`, `hintBitPack`, `hintBitUnpackVector`,
+`w1Encode`), executed by the driver against the Go functions on every run (`D spack|sunpack|bpack|bunpack|
+hpack|hunpack|w1enc`).  This file proves, for **all** coefficient lists / byte strings (no bound on values
+or lengths beyond what is stated) and all positive widths:
+
+1. `simpleBitUnpack_simpleBitPack` : `unpack b (pack b w) = w` if every coefficient `< 2^b` (any length
+   whose bit length is a whole number of bytes; `_256` for polynomials), `simpleBitPack_length_256`:
+   `32·b` bytes;
+2. `simpleBitPack_simpleBitUnpack` : `pack b (unpack b e) = e` for every `e` whose bit length is a multiple
+   of `b` (`_256`: `|e| = 32·b`) — the layer is a bijection, hence not malleable;
+3. `bitUnpack_bitPack` : round trip for coefficients in the centered range `[−a, b]` as stored mod q;
+   `bitPack_bitUnpack`: the converse whenever `2^bitlen(a+b) ≤ q` (`mldsa_bitPack_bijective`: all five
+   signed ML-DSA shapes);
+4. `hintBitUnpack_hintBitPack` : `unpack (pack h) = some h` for every 0/1 vector with at most ω ones
+   (any k, any ω ≤ 255);
+5. `hintBitUnpack_canonical` : `unpack y = some h → pack h = y` — every accepted hint encoding is THE
+   encoding of what it decodes to (any ω, k); `hintBitUnpack_wf`, `hintBitUnpack_injective`;
+6. rejection lemmas, one per malformed-input check of Algorithm 21: `hintBitUnpack_reject_length`,
+   `…_counter_gt_omega`, `…_counter_decreasing`, `…_index_not_increasing`, `…_nonzero_padding`;
+7. `hintBitPackGo_eq` : the literal Go loop (array writes) equals the closed form used in 4–5;
+   `mldsa_hint_laws` restates 4–5 for the Go loop and (ω, k) ∈ {(80,4), (55,6), (75,8)};
+8. `w1Encode_length`, `w1Encode_injective`; `subq_eq_gen`: the coefficient subtraction of the model is the
+   regenerated Go `sub`.
+
+Method: both packers are defined bit-wise like the Go loops (`byteBit`, `coeffBit`); the key lemmas
+`byteBit_simpleBitPack` / `coeffBit_simpleBitUnpack` say that bit `i` of the byte string is bit `i mod b`
+of coefficient `i / b`; the round trips follow by `Nat.testBit` extensionality.  For hints the decoder is
+a recursion over the counter bytes; `hintUnpackLoop_some` extracts from an accepting run that the index
+bytes are the concatenated position lists, the padding is zero and the counters are the running sums;
+`positions_setOnes` (a strictly increasing list is determined by its set of elements) closes the loop.
+-/
 namespace TinkVerif.Model.MldsaPack
 open TinkVerif
 
@@ -1024,4 +1060,310 @@ theorem hintBitUnpack_reject_nonzero_padding (omega k : Nat) (y : Bytes) (j : Na
     exact h this
   · simp [hl] at hr
 
+/-! ### The Go loop of `hintBitPack` (array writes) equals the closed form -/
+
+theorem set_at_length {α : Type} (a b : List α) (x y : α) : (a ++ x :: b).set a.length y = a ++ y :: b := by
+  induction a with
+  | nil => rfl
+  | cons c cs ih => simp [ih]
+
+theorem hintPackPoly_eq (res : Bytes) (index : Nat) (p : List Nat) :
+    hintPackPoly res index p
+      = (positions p).foldl (fun (st : Bytes × Nat) j => (st.1.set st.2 (UInt8.ofNat j), st.2 + 1)) (res, index) := by
+  unfold hintPackPoly positions
+  rw [List.foldl_filter]
+
+theorem foldl_write (js : List Nat) (pre zs : Bytes) (hl : js.length ≤ zs.length) :
+    js.foldl (fun (st : Bytes × Nat) j => (st.1.set st.2 (UInt8.ofNat j), st.2 + 1)) (pre ++ zs, pre.length)
+      = (pre ++ js.map UInt8.ofNat ++ zs.drop js.length, pre.length + js.length) := by
+  induction js generalizing pre zs with
+  | nil => simp
+  | cons j js ih =>
+    cases zs with
+    | nil => simp at hl
+    | cons z zs' =>
+      simp only [List.foldl_cons, set_at_length]
+      have e : pre ++ UInt8.ofNat j :: zs' = (pre ++ [UInt8.ofNat j]) ++ zs' := by simp
+      have e2 : pre.length + 1 = (pre ++ [UInt8.ofNat j]).length := by simp
+      rw [e, e2, ih (pre ++ [UInt8.ofNat j]) zs' (by simpa using hl)]
+      simp [Nat.add_assoc, Nat.add_comm 1]
+
+theorem hintPackLoop_eq (omega : Nat) (ps : List (List Nat)) (i : Nat) (pre zs cdone ctail : Bytes)
+    (h1 : pre.length + zs.length = omega) (h2 : cdone.length = i) (h3 : ctail.length = ps.length)
+    (hw : hintWeight ps ≤ zs.length) :
+    hintPackLoop omega ps i (pre ++ zs ++ cdone ++ ctail) pre.length
+      = pre ++ (ps.flatMap positions).map UInt8.ofNat ++ zs.drop (hintWeight ps) ++ cdone
+          ++ (hintCounters ps pre.length).map UInt8.ofNat := by
+  induction ps generalizing i pre zs cdone ctail with
+  | nil =>
+    have : ctail = [] := List.length_eq_zero_iff.1 h3
+    subst this
+    simp [hintPackLoop, hintWeight, hintCounters]
+  | cons p ps ih =>
+    cases ctail with
+    | nil => simp at h3
+    | cons c0 ctail' =>
+      simp only [hintWeight, List.flatMap_cons, List.length_append] at hw
+      have hpl : (positions p).length ≤ (zs ++ cdone ++ c0 :: ctail').length := by
+        simp only [List.length_append]; omega
+      have e0 : pre ++ zs ++ cdone ++ c0 :: ctail' = pre ++ (zs ++ cdone ++ c0 :: ctail') := by simp
+      have hpoly := foldl_write (positions p) pre (zs ++ cdone ++ c0 :: ctail') hpl
+      have hdrop : (zs ++ cdone ++ c0 :: ctail').drop (positions p).length
+          = zs.drop (positions p).length ++ cdone ++ c0 :: ctail' := by
+        rw [List.append_assoc, List.drop_append_of_le_length (by omega)]; simp
+      simp only [hintPackLoop]
+      rw [hintPackPoly_eq, e0, hpoly, hdrop]
+      simp only []
+      -- write the counter
+      have hpos : omega + i = (pre ++ (positions p).map UInt8.ofNat ++ zs.drop (positions p).length ++ cdone).length := by
+        simp only [List.length_append, List.length_map, List.length_drop]; omega
+      have e1 : pre ++ (positions p).map UInt8.ofNat ++ (zs.drop (positions p).length ++ cdone ++ c0 :: ctail')
+          = (pre ++ (positions p).map UInt8.ofNat ++ zs.drop (positions p).length ++ cdone) ++ c0 :: ctail' := by simp
+      rw [e1, hpos, set_at_length]
+      have e2 : pre.length + (positions p).length = (pre ++ (positions p).map UInt8.ofNat).length := by simp
+      have e3 : (pre ++ (positions p).map UInt8.ofNat ++ zs.drop (positions p).length ++ cdone)
+            ++ UInt8.ofNat (pre.length + (positions p).length) :: ctail'
+          = (pre ++ (positions p).map UInt8.ofNat) ++ zs.drop (positions p).length
+            ++ (cdone ++ [UInt8.ofNat (pre.length + (positions p).length)]) ++ ctail' := by simp
+      rw [e3]
+      conv => lhs; arg 5; rw [e2]
+      rw [ih (i + 1) (pre ++ (positions p).map UInt8.ofNat) (zs.drop (positions p).length)
+        (cdone ++ [UInt8.ofNat (pre.length + (positions p).length)]) ctail'
+        (by simp only [List.length_append, List.length_map, List.length_drop]; omega)
+        (by simp [h2]) (by simpa using h3)
+        (by unfold hintWeight; rw [List.length_drop]; omega)]
+      simp only [hintWeight, hintCounters, List.flatMap_cons, List.map_append, List.map_cons, List.drop_drop,
+        List.length_append, List.length_map, List.append_assoc, List.cons_append, List.nil_append]
+
+/-- **The Go loop and the closed form agree** on every vector with at most `ω` ones (beyond that the Go
+loop would overwrite counter bytes or index out of range; `sign` never produces such a vector). -/
+theorem hintBitPackGo_eq (omega : Nat) (h : List (List Nat)) (hw : hintWeight h ≤ omega) :
+    hintBitPackGo omega h = hintBitPack omega h := by
+  unfold hintBitPackGo hintBitPack
+  have e : Bytes.zeros (omega + h.length) = [] ++ Bytes.zeros omega ++ [] ++ Bytes.zeros h.length := by
+    simp [Bytes.zeros, List.replicate_append_replicate]
+  rw [e]
+  have := hintPackLoop_eq omega h 0 [] (Bytes.zeros omega) [] (Bytes.zeros h.length) (by simp) rfl (by simp) (by simpa using hw)
+  simp only [List.length_nil] at this
+  rw [this]
+  simp [Bytes.zeros, hintWeight]
+
+/-! ### The ML-DSA parameter sets -/
+
+/-- both directions for one polynomial and one signed shape `[−a, b]` -/
+theorem bitPack_bijective_256 (a b : Nat) (hpos : 0 < a + b) (hab : a + b < q) (hq : 2 ^ bitlen (a + b) ≤ q) :
+    (∀ w : List Nat, w.length = 256 → (∀ c ∈ w, c ≤ b ∨ (q - a ≤ c ∧ c < q)) →
+        bitUnpack a b (bitPack a b w) = w ∧ (bitPack a b w).length = 32 * bitlen (a + b)) ∧
+    (∀ enc : Bytes, enc.length = 32 * bitlen (a + b) →
+        bitPack a b (bitUnpack a b enc) = enc ∧ (bitUnpack a b enc).length = 256) := by
+  refine ⟨fun w hw hr => ⟨bitUnpack_bitPack_256 a b w hpos hab hw hr, bitPack_length_256 a b w hw⟩, ?_⟩
+  intro enc he
+  refine ⟨bitPack_bitUnpack a b enc hpos (by omega) hq (by rw [he]; exact ⟨256, by omega⟩), ?_⟩
+  unfold bitUnpack bitUnpackBits
+  rw [subFrom_length, simpleBitUnpack_length_256 _ _ (bitlen_pos _ hpos) he]
+
+/-- the side conditions hold for the five signed shapes of ML-DSA: η = 2, η = 4, t₀ (2¹²−1, 2¹²),
+z with γ₁ = 2¹⁷ and γ₁ = 2¹⁹ -/
+theorem mldsa_signed_shapes :
+    ∀ ab ∈ [(2, 2), (4, 4), (4095, 4096), (131071, 131072), (524287, 524288)],
+      0 < ab.1 + ab.2 ∧ ab.1 + ab.2 < q ∧ 2 ^ bitlen (ab.1 + ab.2) ≤ q := by decide +kernel
+
+/-- **BitPack/BitUnpack are mutually inverse bijections for every signed ML-DSA shape** -/
+theorem mldsa_bitPack_bijective :
+    ∀ ab ∈ [(2, 2), (4, 4), (4095, 4096), (131071, 131072), (524287, 524288)],
+    (∀ w : List Nat, w.length = 256 → (∀ c ∈ w, c ≤ ab.2 ∨ (q - ab.1 ≤ c ∧ c < q)) →
+        bitUnpack ab.1 ab.2 (bitPack ab.1 ab.2 w) = w ∧ (bitPack ab.1 ab.2 w).length = 32 * bitlen (ab.1 + ab.2)) ∧
+    (∀ enc : Bytes, enc.length = 32 * bitlen (ab.1 + ab.2) →
+        bitPack ab.1 ab.2 (bitUnpack ab.1 ab.2 enc) = enc ∧ (bitUnpack ab.1 ab.2 enc).length = 256) := by
+  intro ab hab
+  obtain ⟨h1, h2, h3⟩ := mldsa_signed_shapes ab hab
+  exact bitPack_bijective_256 ab.1 ab.2 h1 h2 h3
+
+/-- **SimpleBitPack/SimpleBitUnpack are mutually inverse bijections for every unsigned width** (t₁: 10,
+w₁: 6 and 4 bits, and any other positive width) between polynomials with coefficients below `2^bits` and
+strings of `32·bits` bytes -/
+theorem simpleBitPack_bijective_256 (bits : Nat) (hb : 0 < bits) :
+    (∀ w : List Nat, w.length = 256 → (∀ c ∈ w, c < 2 ^ bits) →
+        simpleBitUnpack bits (simpleBitPack bits w) = w ∧ (simpleBitPack bits w).length = 32 * bits) ∧
+    (∀ enc : Bytes, enc.length = 32 * bits →
+        simpleBitPack bits (simpleBitUnpack bits enc) = enc ∧ (simpleBitUnpack bits enc).length = 256 ∧
+        ∀ c ∈ simpleBitUnpack bits enc, c < 2 ^ bits) :=
+  ⟨fun w hw hr => ⟨simpleBitUnpack_simpleBitPack_256 bits w hb hw hr, simpleBitPack_length_256 bits w hw⟩,
+   fun enc he => ⟨simpleBitPack_simpleBitUnpack_256 bits enc hb he, simpleBitUnpack_length_256 bits enc hb he,
+     simpleBitUnpack_lt bits enc⟩⟩
+
+/-- **Hints, the three parameter sets (ω, k) = (80, 4), (55, 6), (75, 8)**, with the Go loop as encoder:
+(1) every hint vector with at most ω ones survives the round trip; (2) every accepted encoding is the
+encoder's output on the decoded vector (canonicity), which is a well-formed vector with at most ω ones. -/
+theorem mldsa_hint_laws :
+    ∀ wk ∈ [(80, 4), (55, 6), (75, 8)],
+    (∀ h : List (List Nat), h.length = wk.2 → HintOK h → hintWeight h ≤ wk.1 →
+        hintBitUnpack wk.1 wk.2 (hintBitPackGo wk.1 h) = some h ∧ (hintBitPackGo wk.1 h).length = wk.1 + wk.2) ∧
+    (∀ (y : Bytes) (h : List (List Nat)), hintBitUnpack wk.1 wk.2 y = some h →
+        hintBitPackGo wk.1 h = y ∧ h.length = wk.2 ∧ HintOK h ∧ hintWeight h ≤ wk.1) := by
+  intro wk hwk
+  have ho : wk.1 ≤ 255 := by
+    simp only [List.mem_cons, List.not_mem_nil, or_false] at hwk
+    rcases hwk with rfl | rfl | rfl <;> decide
+  constructor
+  · intro h hl hok hw
+    rw [hintBitPackGo_eq _ _ hw, ← hl]
+    exact ⟨hintBitUnpack_hintBitPack wk.1 h ho hok hw, hintBitPack_length wk.1 h hw⟩
+  · intro y h hr
+    obtain ⟨w1, w2, w3⟩ := hintBitUnpack_wf wk.1 wk.2 y h hr
+    rw [hintBitPackGo_eq _ _ w3]
+    exact ⟨hintBitUnpack_canonical wk.1 wk.2 y h hr, w1, w2, w3⟩
+
+/-! ### The hypotheses are satisfiable -/
+
+theorem hintOK_setOnes (ss : List Bytes) : HintOK (ss.map setOnes) := by
+  intro p hp
+  simp only [List.mem_map] at hp
+  obtain ⟨s, _, rfl⟩ := hp
+  exact ⟨setOnes_length s, setOnes_bits s⟩
+
+example : simpleBitUnpack 10 (simpleBitPack 10 (List.replicate 256 1023)) = List.replicate 256 1023 :=
+  simpleBitUnpack_simpleBitPack_256 10 _ (by decide) List.length_replicate
+    (by intro c hc; rw [List.eq_of_mem_replicate hc]; decide)
+
+example : simpleBitPack 6 (simpleBitUnpack 6 (List.replicate 192 0xa7)) = List.replicate 192 0xa7 :=
+  simpleBitPack_simpleBitUnpack_256 6 _ (by decide) List.length_replicate
+
+-- coefficient −2 ≡ q − 2 for η = 2, coefficient −(γ₁−1) for γ₁ = 2¹⁷
+example : bitUnpack 2 2 (bitPack 2 2 (List.replicate 256 8380415)) = List.replicate 256 8380415 :=
+  bitUnpack_bitPack_256 2 2 _ (by decide) (by decide) List.length_replicate
+    (by intro c hc; rw [List.eq_of_mem_replicate hc]; decide)
+
+example : bitUnpack 131071 131072 (bitPack 131071 131072 (List.replicate 256 8249346)) = List.replicate 256 8249346 :=
+  bitUnpack_bitPack_256 131071 131072 _ (by decide) (by decide) List.length_replicate
+    (by intro c hc; rw [List.eq_of_mem_replicate hc]; decide)
+
+example : bitPack 524287 524288 (bitUnpack 524287 524288 (List.replicate 640 0xff)) = List.replicate 640 0xff :=
+  ((mldsa_bitPack_bijective (524287, 524288) (by decide)).2 _ (by
+    rw [List.length_replicate]; exact (by decide +kernel : 640 = 32 * bitlen (524287 + 524288)))).1
+
+/-- a hint vector for ML-DSA-44 with ones at (0;3), (0;5), (2;7), (2;200) -/
+example : hintBitUnpack 80 4 (hintBitPackGo 80 ([[3, 5], [], [7, 200], []].map setOnes))
+    = some ([[3, 5], [], [7, 200], []].map setOnes) := by
+  have hw : hintWeight ([[3, 5], [], [7, 200], []].map setOnes) ≤ 80 := by
+    simp only [hintWeight, List.map_cons, List.map_nil, List.flatMap_cons, List.flatMap_nil, List.length_append]
+    rw [positions_setOnes [3, 5] rfl, positions_setOnes [] rfl, positions_setOnes [7, 200] rfl]
+    decide
+  exact ((mldsa_hint_laws (80, 4) (by decide)).1 _ rfl (hintOK_setOnes _) hw).1
+
+-- the four malformed shapes (small ω = 4, k = 2 so that the strings fit on a line)
+example : hintBitUnpack 4 2 [1, 2, 0, 0, 5, 2] = none :=        -- counter above ω
+  hintBitUnpack_reject_counter_gt_omega 4 2 _ 0 (by decide) (by decide)
+example : hintBitUnpack 4 2 [1, 2, 0, 0, 2, 1] = none :=        -- counter decreases
+  hintBitUnpack_reject_counter_decreasing 4 2 _ 0 (by decide) (by decide)
+example : hintBitUnpack 4 2 [7, 7, 0, 0, 2, 2] = none :=        -- equal indices in one polynomial
+  hintBitUnpack_reject_index_not_increasing 4 2 _ 0 0 (by decide) (by decide) (by decide) (by decide)
+example : hintBitUnpack 4 2 [1, 2, 0, 9, 2, 2] = none :=        -- non-zero padding
+  hintBitUnpack_reject_nonzero_padding 4 2 _ 3 (by decide) (by decide) (by decide) (by decide)
+example : hintBitUnpack 4 2 [1, 2, 0, 0, 2, 2] = some ([[1, 2], []].map setOnes) := by decide +kernel
+
 end TinkVerif.Model.MldsaPack
+
+section AxiomAudit
+open TinkVerif.Model.MldsaPack
+#print axioms testBit_natOfBits
+#print axioms natOfBits_lt
+#print axioms natOfBits_congr
+#print axioms natOfBits_testBit
+#print axioms getD_map_range
+#print axioms div_ge_of_dvd
+#print axioms toNat_byte_natOfBits
+#print axioms byteBit_simpleBitPack
+#print axioms div_ge_of_dvd'
+#print axioms coeffBit_simpleBitUnpack
+#print axioms simpleBitPack_length
+#print axioms simpleBitUnpack_length
+#print axioms simpleBitPack_length_256
+#print axioms simpleBitUnpack_length_256
+#print axioms mul_add_div_self
+#print axioms mul_add_mod_self'
+#print axioms simpleBitUnpack_simpleBitPack
+#print axioms simpleBitPack_simpleBitUnpack
+#print axioms simpleBitUnpack_simpleBitPack_256
+#print axioms simpleBitPack_simpleBitUnpack_256
+#print axioms simpleBitUnpack_lt
+#print axioms simpleBitPack_injective
+#print axioms simpleBitUnpack_injective
+#print axioms lt_two_pow_bitlen
+#print axioms bitlen_pos
+#print axioms subq_eq_gen
+#print axioms subq_lt
+#print axioms subq_subq
+#print axioms subq_range
+#print axioms subq_range_back
+#print axioms subFrom_subFrom
+#print axioms bitUnpackBits_bitPackBits
+#print axioms bitUnpack_bitPack
+#print axioms bitUnpack_bitPack_256
+#print axioms bitPack_length_256
+#print axioms bitPackBits_bitUnpackBits
+#print axioms bitPack_bitUnpack
+#print axioms bitlen_shapes
+#print axioms w1Encode_length
+#print axioms w1Encode_injective
+#print axioms pairwise_lt_ext
+#print axioms positions_pairwise
+#print axioms mem_positions
+#print axioms positions_lt
+#print axioms positions_length_le
+#print axioms strictInc_head_lt
+#print axioms strictInc_tail
+#print axioms strictInc_pairwise
+#print axioms pairwise_strictInc
+#print axioms strictInc_adjacent
+#print axioms foldl_set_length
+#print axioms foldl_set_getD
+#print axioms replicate_getD_zero
+#print axioms setOnes_getD
+#print axioms setOnes_bits
+#print axioms mem_positions_setOnes
+#print axioms positions_setOnes
+#print axioms map_ofNat_toNat
+#print axioms map_toNat_ofNat
+#print axioms setOnes_positions
+#print axioms strictInc_positions
+#print axioms hintBitPack_length
+#print axioms toNat_ofNat_small
+#print axioms hintUnpackLoop_pack
+#print axioms hintBitUnpack_hintBitPack
+#print axioms take_drop_split
+#print axioms hintUnpackLoop_some
+#print axioms all_zero_eq_zeros
+#print axioms hintBitUnpack_canonical
+#print axioms hintBitUnpack_wf
+#print axioms hintBitUnpack_injective
+#print axioms hintUnpackLoop_ctr_bounds
+#print axioms lastCtr_eq
+#print axioms hintUnpackLoop_ctr_mono
+#print axioms getD_take_drop
+#print axioms hintUnpackLoop_adjacent
+#print axioms hintUnpackLoop_padding
+#print axioms getD_drop
+#print axioms getD_take
+#print axioms prevCtr_drop
+#print axioms eq_none_of_forall_ne
+#print axioms hintBitUnpack_reject_length
+#print axioms hintBitUnpack_reject_counter_gt_omega
+#print axioms hintBitUnpack_reject_counter_decreasing
+#print axioms hintBitUnpack_reject_index_not_increasing
+#print axioms hintBitUnpack_reject_nonzero_padding
+#print axioms set_at_length
+#print axioms hintPackPoly_eq
+#print axioms foldl_write
+#print axioms hintPackLoop_eq
+#print axioms hintBitPackGo_eq
+#print axioms bitPack_bijective_256
+#print axioms mldsa_signed_shapes
+#print axioms mldsa_bitPack_bijective
+#print axioms simpleBitPack_bijective_256
+#print axioms mldsa_hint_laws
+#print axioms hintOK_setOnes
+#print axioms subFrom_length
+#print axioms setOnes_length
+#print axioms hintCounters_length
+end AxiomAudit
